@@ -76,7 +76,7 @@ def ensure_mir(crate='lightning', log=print):
             return path, h, 0.0
         t = time.time()
         for old in os.listdir(d):
-            if old.startswith(crate + '-') and old.endswith('.mir'):
+            if re.fullmatch(re.escape(crate) + r'-[0-9a-f]+\.mir', old):      # (not another crate whose name starts the same)
                 os.remove(os.path.join(d, old))
         tdir = os.path.join(CACHE, 'mir-target')
         cmd = ['cargo', '+' + NIGHTLY, 'rustc', '--offline', '--lib'] + CRATE_FEATURES[crate] + \
